@@ -53,7 +53,8 @@ def main():
                 elif kind == "wrapped":
                     Fc = F.copy()
                     with contextlib.redirect_stdout(io.StringIO()):
-                        r = np.array(metrics.get_crowding_function(job["label"]).do(Fc, n_remove=job["n_remove"]), dtype=float)
+                        import comp_crowd
+                        r = np.array(metrics.get_crowding_function(comp_crowd.label_object(job["label"])).do(Fc, n_remove=job["n_remove"]), dtype=float)
                     same = bool(np.array_equal(Fc.view(np.uint64), F.view(np.uint64)))
                     res = ("ok", r, same)
                 elif kind == "trace":
